@@ -85,6 +85,13 @@ def check_quadratic(case):
     if not np.isfinite(E):
         out.fail("energy_not_finite", "strain energy %r" % E)
         return out
+    if 0 < scale < 1e-250:
+        # products of stiffness, squared eigenstrain and volume this small leave the normal floating-point range
+        # (denormal energies carry a few digits only): sign and finiteness are judged above, the relative identities are not
+        out.label("energy_in_denormal_range")
+        if E < 0:
+            out.fail("energy_negative", "strain energy %r < 0" % E, shear=shear)
+        return out
     if E < -1e-9 * scale:
         out.fail("energy_negative", "strain energy %r < 0 (scale %r) for %r" % (E, scale, {k: case[k] for k in ("cM", "cP", "eig", "r")}), shear=shear)
     s = case["s"]
